@@ -7,7 +7,9 @@ proof:  lean/AdeptProofs/Props/C09.lean — for EVERY capacity and fill level a 
 tie:    hook H1 logs the real event stream of every statement; each logged stream is (a) replayed through the model from
         the logged start state and must end in the logged end state, (b) compared with the site model where one exists,
         (c) judged with `disciplined`; builds with ADEPT_INITIAL_STACK_LENGTH 1,2,3,7,64
-oracle: no `F` (reported out-of-range write) event in any build; the tape dump is identical across capacities
+oracle: no `F` (reported out-of-range write) event in any build; the tape dump and the gradients of a reverse sweep are identical
+        across capacities; the real preallocate_statements/operations (member and free functions, op `prealloc`) record nothing,
+        shrink nothing, leave room for n more, and the same history without them gives the same tape and gradients
 """
 import os, json, subprocess, sys
 from concurrent.futures import ThreadPoolExecutor
@@ -18,7 +20,8 @@ LEVEL = "proof"
 NS = "Adept.RecBuf."
 REQUIRED = ["C09_node_traits_consistent", "C09_every_recording_call_reserved", "C09_site_diag_vector", "C09_site_element_temporary", "C09_site_matmul",
             "C09_check_reserves", "C09_lhs_safe", "C09_disciplined_safe", "C09_no_fault_any_capacity",
-            "C09_counts_capacity_independent", "C09_preallocate_harmless", "C09_site_scalar", "C09_site_copy",
+            "C09_counts_capacity_independent", "C09_preallocate_harmless", "C09_preallocate_operations_room",
+            "C09_preallocate_statements_room", "C09_preallocate_same_counts", "C09_site_scalar", "C09_site_copy",
             "C09_site_dependence", "C09_site_array_assign", "C09_site_array_from_scalar", "C09_site_conditional"]
 
 
@@ -40,6 +43,8 @@ def expected_site(op):
         return ("scalarAssign", 2, 0)
     if w[0] == "cmul" and w[2].startswith("c"):
         return ("scalarAssign", 1, 0)
+    if w[0] == "rcmul":
+        return ("refAssign", 1, 0)      # ActiveReference *= passive is `*this = *this * rhs`
     if w[0] == "adep":
         return ("stackAddDep", 0 if int(w[3]) == 0 else 1, 0)
     if w[0] == "adepv":
@@ -49,8 +54,31 @@ def expected_site(op):
     return None
 
 
-def gen_program(rng):
-    g = tc.Gen(rng)
+PRE_NS = [0, 1, 2, 3, 4, 5, 7, 8, 13, 40, 200]
+
+
+def prealloc_op(rng, which=None, n=None, form=None):
+    """`prealloc s|o <n> [m|f]`: Stack::preallocate_statements / preallocate_operations, member (m or nothing) or free function (f)"""
+    which = which or rng.choice("so")
+    n = rng.choice(PRE_NS) if n is None else n
+    form = rng.choice(["", " m", " f"]) if form is None else form
+    return "prealloc %s %d%s" % (which, n, form)
+
+
+def finish_program(g):
+    """tape dump, then one reverse sweep seeded at the last left-hand side and the gradient of every live variable: what the
+    capacity builds and the histories with / without preallocate_* calls must agree on"""
+    g.emit("tape")
+    live = sorted(g.live)
+    y = g.last_lhs if g.last_lhs in g.live else live[-1]
+    g.emit("seed %d 1" % y)
+    g.emit("rev")
+    for k in live:
+        g.emit("get %d" % k)
+
+
+def gen_program(rng, pre_rate=0.18):
+    g = tc.Gen(rng, array_forms=True)
     g.emit("cfg 4 0 1")
     for _ in range(rng.randint(2, 4)):
         g.new()
@@ -58,12 +86,64 @@ def gen_program(rng):
     g.emit("ev")
     n = rng.randint(4, 40)
     for _ in range(n):
+        if rng.random() < pre_rate:
+            g.emit(prealloc_op(rng)); g.emit("ev")
         k = len(g.ops)
         g.statement()
         if len(g.ops) > k:
             g.emit("ev")
-    g.emit("tape")
+    if rng.random() < pre_rate:
+        g.emit(prealloc_op(rng)); g.emit("ev")
+    finish_program(g)
     return g.ops
+
+
+def directed_prealloc_programs(rng, tier):
+    """every (function, form, n) at every fill level 0..pad_max of a fresh recording: `pad` copies (one operation and one statement
+    each) then the call, then three more statements.  With capacities 1, 2, 3 the fill levels straddle both growth conditions
+    (allocated < n_operations+n+1, n_statements+n+1 >= allocated) and both growth amounts (2*allocated, 2*allocated+n)."""
+    out = []
+    pads = range(0, 8) if tier == "quick" else range(0, 14)
+    ns = [0, 1, 2, 3, 5, 8, 40] if tier == "quick" else PRE_NS
+    for which in "so":
+        for n in ns:
+            for pad in pads:
+                forms = [rng.choice(["", " m"]), " f"] if tier != "quick" else [rng.choice(["", " m", " f"])]
+                for form in forms:
+                    g = tc.Gen(rng)
+                    g.emit("cfg 4 0 1")
+                    a, b = g.new(), g.new()
+                    g.emit("nr"); g.emit("ev")
+                    for _ in range(pad):
+                        g.live[a] = g.live[b]
+                        g.emit("asg %d v%d" % (a, b)); g.emit("ev")
+                        g.last_lhs = a
+                    g.emit(prealloc_op(rng, which, n, form)); g.emit("ev")
+                    if rng.random() < 0.3:      # two calls in a row: the second finds the room the first made
+                        g.emit(prealloc_op(rng, rng.choice("so"), rng.choice(ns), None)); g.emit("ev")
+                    for _ in range(3):
+                        k = len(g.ops)
+                        g.statement()
+                        if len(g.ops) > k:
+                            g.emit("ev")
+                    finish_program(g)
+                    out.append(g.ops)
+    return out
+
+
+def strip_prealloc(ops):
+    """the same history without the preallocate_* calls (and the `ev` that follows each)"""
+    out, skip = [], False
+    for o in ops:
+        if skip and o == "ev":
+            skip = False
+            continue
+        skip = False
+        if o.startswith("prealloc "):
+            skip = True
+            continue
+        out.append(o)
+    return out
 
 
 def parse_E(line):
@@ -104,7 +184,15 @@ def run(ctx, replay):
             print("\n".join("%-40s | %s" % (o, l) for o, l in zip(rr["ops"], il)))
         return
     nprog = 150 if ctx.tier == "quick" else 1200
-    progs = [gen_program(ctx.rng) for _ in range(nprog)]
+    progs = [gen_program(ctx.rng) for _ in range(nprog)] + directed_prealloc_programs(ctx.rng, ctx.tier)
+    # twin histories: the same program without its preallocate_* calls; tape dump and gradients must be identical
+    twin = {}
+    for pi in range(len(progs)):
+        if any(o.startswith("prealloc ") for o in progs[pi]):
+            twin[pi] = len(progs)
+            progs.append(strip_prealloc(progs[pi]))
+    pre_stats = ctx.notes.setdefault("preallocate_calls", {"operations": 0, "statements": 0, "member": 0, "free_function": 0,
+                                                            "grew": 0, "left_alone": 0, "n_values": {}})
     text = "".join("\n".join(p) + "\n" for p in progs)
     outs = [vcheck.run_impl(exe, [], text) for exe in exes]
     # model queries are batched: one `runfrom`, one `judge`, (one `site`) per logged stream
@@ -120,7 +208,8 @@ def run(ctx, replay):
                               {"kind": "crash", "capacity": cap, "ops": ops, "stderr": err[-3000:]})
                 nbad += 1
                 break
-            tapes.setdefault(pi, {})[cap] = il[-1]
+            ti = ops.index("tape")
+            tapes.setdefault(pi, {})[cap] = " ## ".join(il[ti:])     # tape dump + gradients of the reverse sweep
             prev = None
             last_op = None
             for o, l in zip(ops, il):
@@ -141,6 +230,33 @@ def run(ctx, replay):
                                   % (last_op, cap, faults[0]),
                                   {"kind": "oracle", "capacity": cap, "ops": ops[:ops.index(o, 0) + 1] if False else ops,
                                    "statement": last_op, "events": evs, "state_after": state})
+                if prev is not None and last_op and last_op.startswith("prealloc ") and not faults:
+                    # oracle for the calls themselves, from the documentation ("memory ... can be preallocated"): nothing is
+                    # recorded, nothing shrinks, the other buffer is untouched, and there is room for n more afterwards
+                    pw = last_op.split()
+                    pn = int(pw[2])
+                    bad = None
+                    if evs != [pw[1] + pw[2]]:
+                        bad = "the call made the recording buffers do something: events %s" % evs[:10]
+                    elif (state[0], state[2]) != (prev[0], prev[2]):
+                        bad = "the call changed the number of recorded operations/statements"
+                    elif state[1] < prev[1] or state[3] < prev[3]:
+                        bad = "a buffer shrank"
+                    elif pw[1] == "o" and (state[3] != prev[3] or state[1] - state[0] < pn):
+                        bad = "no room for %d operations afterwards (or the statement buffer changed)" % pn
+                    elif pw[1] == "s" and (state[1] != prev[1] or state[3] - state[2] < pn):
+                        bad = "no room for %d statements afterwards (or the operation buffer changed)" % pn
+                    if bad and nbad < 3:
+                        nbad += 1
+                        ctx.violation("%r with initial capacity %d: %s (operations n/allocated, statements n/allocated: before %s after %s)"
+                                      % (last_op, cap, bad, prev, state),
+                                      {"kind": "oracle", "capacity": cap, "ops": ops, "statement": last_op, "events": evs,
+                                       "state_before": prev, "state_after": state})
+                    if True:
+                        pre_stats["operations" if pw[1] == "o" else "statements"] += 1
+                        pre_stats["free_function" if pw[-1] == "f" else "member"] += 1
+                        pre_stats["grew" if (state[1], state[3]) != (prev[1], prev[3]) else "left_alone"] += 1
+                        pre_stats["n_values"][pn] = pre_stats["n_values"].get(pn, 0) + 1
                 if prev is not None and evs and not faults:
                     queries.append("runfrom %d %d %d %d %s" % (prev + (" ".join(evs),)))
                     qmeta.append(("run", cap, pi, last_op, state, evs))
@@ -285,13 +401,32 @@ def run(ctx, replay):
                                "statement": op, "events": evs[:200], "model_verdict": m, "ops": prog_of(pi),
                                "adversary": adv}, tag="d", no_input=(adv == "none"))
                 nbad += 1
-    # derivatives identical whatever the capacity: tape dumps agree across builds
+    # derivatives identical whatever the capacity: tape dumps and reverse-sweep gradients agree across builds
     for pi, d in tapes.items():
         vals = set(d.values())
         if len(vals) > 1 and nbad < 3:
             nbad += 1
-            ctx.violation("the recorded tape depends on the initial capacity: %s" % {c: t[:80] for c, t in d.items()},
+            ctx.violation("the recorded tape / its gradients depend on the initial capacity: %s" % {c: t[:80] for c, t in d.items()},
                           {"kind": "oracle", "ops": progs[pi], "tapes": d})
+    # preallocate_* affects speed only: the history with the calls records the same tape and yields the same gradients as the
+    # history without them, in every capacity build
+    ntw = 0
+    for pi, pj in twin.items():
+        for cap in caps:
+            a, b = tapes.get(pi, {}).get(cap), tapes.get(pj, {}).get(cap)
+            if a is None or b is None:
+                continue
+            ntw += 1
+            if (a != b or "EXC" in a or not a.startswith("T ")) and nbad < 3:
+                nbad += 1
+                ctx.violation("preallocate_* changed what is recorded or the derivatives (initial capacity %d): with the calls %s / without %s"
+                              % (cap, a[:120], b[:120]),
+                              {"kind": "oracle", "capacity": cap, "ops": progs[pi], "ops_without_preallocate": progs[pj],
+                               "with": a, "without": b})
+    ctx.notes["preallocate_twin_histories_compared"] = ntw
+    ctx.notes["preallocate_distribution"] = ("random: before each statement with probability 0.18, function s|o, n from %s, form member/"
+        "member/free function uniformly; directed: every function x n x fill level 0..%d (copies recorded before the call), a second "
+        "call right after in 30%% of them; every history also runs without its calls" % (PRE_NS, 7 if ctx.tier == "quick" else 13))
     ctx.cov["traces_validated_against_impl"] += len(queries)
     ctx.cov["rule"] = ("random scalar programs (all statement forms of the tape driver) and random array programs (the 62 statement kinds of the C03 "
                        "driver: element-wise, broadcast, compound, where/either_or, indexed, reductions whole and per dimension, spread, "
